@@ -46,6 +46,8 @@ pub enum HOp {
     Edit { actor: Actor, file: u8, edit: Edit },
     Commit,
     CommitFiles { mask: u8 },
+    /// stage a subset of one file's hunks (the state `git add -p` would produce) and commit
+    CommitHunks { file: u8, mask: u16 },
     Amend { stage_all: bool },
     NewBranch { back: u8 },
     /// commit pending work, create a branch at HEAD~back and switch to it
@@ -85,6 +87,7 @@ impl HOp {
             HOp::Edit { .. } => "edit",
             HOp::Commit => "commit",
             HOp::CommitFiles { .. } => "commit-files",
+            HOp::CommitHunks { .. } => "commit-hunks",
             HOp::Amend { .. } => "amend",
             HOp::NewBranch { .. } => "new-branch",
             HOp::Fork { .. } => "fork",
@@ -359,6 +362,9 @@ pub struct Engine {
     /// files whose pending AI lines were carried over a partial commit as INITIAL
     /// (line numbers without a content snapshot)
     pub initial_files: BTreeSet<String>,
+    /// C04: lines left out of a partial commit keep their epoch (they are still
+    /// pending work of the same change set and must be judged strictly later)
+    pub carry_over: bool,
 }
 
 fn sig(pid: &str, s: &str) -> String {
@@ -433,6 +439,7 @@ impl Engine {
             conflict_keys: BTreeSet::new(),
             pending_file_state: BTreeMap::new(),
             initial_files: BTreeSet::new(),
+            carry_over: false,
         };
         e.known_commits = e.all_commits();
         Some(e)
@@ -1169,10 +1176,124 @@ impl Engine {
                     if self.checks.safety {
                         self.check_safety(rep, kind);
                     }
+                    self.w.next_epoch();
+                    self.reset_epoch_fixup();
                     // remaining uncommitted work stays in the current epoch only if nothing
                     // else is pending; keep it simple: epochs advance, model entries of
                     // still-uncommitted lines keep their (older) epoch and are judged by the
                     // carry-over rule of the property under test
+                }
+            }
+            HOp::CommitHunks { file, mask } => {
+                out.class = OpClass::Commit;
+                // repair by construction: the first file (from the generated index on)
+                // whose pending change has at least two hunks
+                let mut found: Option<(String, Vec<u8>, Vec<u8>, Vec<crate::diffp::Hunk>)> = None;
+                for off in 0..self.names.len() {
+                    let p = self.path_of(file.wrapping_add(off as u8));
+                    let Some(wt) = self.w.read_wt(&p) else { continue };
+                    let head_bytes = self.w.blob_at("HEAD", &p).unwrap_or_default();
+                    if wt.contains(&0) || head_bytes == wt {
+                        continue;
+                    }
+                    // hunks HEAD -> working tree (index state is overwritten on purpose)
+                    let o = self.w.rgit(&[
+                        "-c", "core.quotePath=false", "--literal-pathspecs", "diff", "-U0", "--no-renames", "--no-color", "--no-ext-diff",
+                        "--no-textconv", "--diff-algorithm=myers", "--no-indent-heuristic", "HEAD", "--", &p,
+                    ]);
+                    let hunks = crate::diffp::hunks_single_file(&o.stdout);
+                    if hunks.len() >= 2 {
+                        found = Some((p, wt, head_bytes, hunks));
+                        break;
+                    }
+                }
+                let Some((p, wt, head_bytes, hunks)) = found else {
+                    out.class = OpClass::Skipped;
+                    return out;
+                };
+                let mut chosen: Vec<bool> = (0..hunks.len()).map(|i| mask & (1 << (i % 16)) != 0).collect();
+                if chosen.iter().all(|c| *c) {
+                    chosen[0] = false;
+                } else if !chosen.iter().any(|c| *c) {
+                    let n = chosen.len();
+                    chosen[n - 1] = true;
+                }
+                // compose: HEAD content with the chosen hunks applied (byte-exact line pieces)
+                let split = |b: &[u8]| -> Vec<Vec<u8>> { b.split_inclusive(|c| *c == b'\n').map(|l| l.to_vec()).collect() };
+                let old_l = split(&head_bytes);
+                let new_l = split(&wt);
+                let mut outb: Vec<u8> = Vec::new();
+                let mut oi = 0usize; // next old line (0-based) to copy
+                for (h, take) in hunks.iter().zip(chosen.iter()) {
+                    // position of the hunk on the old side (0-based index of first affected line)
+                    let ostart = if h.old_count == 0 { h.old_start as usize } else { h.old_start as usize - 1 };
+                    while oi < ostart && oi < old_l.len() {
+                        outb.extend_from_slice(&old_l[oi]);
+                        oi += 1;
+                    }
+                    if *take {
+                        let nstart = if h.new_count == 0 { h.new_start as usize } else { h.new_start as usize - 1 };
+                        for k in 0..h.new_count as usize {
+                            if let Some(l) = new_l.get(nstart + k) {
+                                outb.extend_from_slice(l);
+                            }
+                        }
+                        oi += h.old_count as usize;
+                    }
+                    // not taken: the old lines are copied by the loop above / below
+                }
+                while oi < old_l.len() {
+                    outb.extend_from_slice(&old_l[oi]);
+                    oi += 1;
+                }
+                // a line without terminator in the middle would glue lines together: only
+                // accept compositions in which every non-final piece ends in a newline
+                let pieces = split(&outb);
+                if pieces.iter().take(pieces.len().saturating_sub(1)).any(|l| !l.ends_with(b"\n")) {
+                    out.class = OpClass::Skipped;
+                    return out;
+                }
+                // F4: an unstaged hunk that removes lines above a staged hunk
+                let mut unstaged_removal_above = false;
+                let mut seen_unstaged_removal = false;
+                for (h, take) in hunks.iter().zip(chosen.iter()) {
+                    if !*take && h.old_count > 0 {
+                        seen_unstaged_removal = true;
+                    }
+                    if *take && seen_unstaged_removal {
+                        unstaged_removal_above = true;
+                    }
+                }
+                if unstaged_removal_above && self.known_taint.is_none() {
+                    rep.class("unstaged-removal-above-staged-hunk");
+                    self.known_taint = Some("unstaged-deletion-above-staged-lines-shifts-attribution");
+                }
+                let sha = self.w.sb.real_git_stdin(&self.w.repo.clone(), &["hash-object", "-w", "--stdin"], &outb).out_trim();
+                let o = self.w.rgit(&["update-index", "--add", "--cacheinfo", &format!("100644,{sha},{p}")]);
+                if !o.ok() {
+                    out.class = OpClass::Skipped;
+                    return out;
+                }
+                let before = self.w.head();
+                let o = self.w.git(&["commit", "-q", "-m", "partial (hunks)"]);
+                out.ok = o.ok() && self.w.head() != before;
+                if out.ok {
+                    rep.class("partial-commit-by-hunk");
+                    // what is still pending belongs to the next commit's epoch
+                    self.w.next_epoch();
+                    self.reset_epoch_fixup();
+                    // every file with pending AI lines (this one included: some of its hunks
+                    // stay behind) is carried over as INITIAL
+                    let left: Vec<String> =
+                        self.pending_file_state.iter().filter(|(_, (ai, _))| *ai).map(|(f, _)| f.clone()).collect();
+                    for f in left {
+                        self.initial_files.insert(f);
+                    }
+                    let new = self.register_new_commits(kind);
+                    self.check_new_commits(&new, kind, rep);
+                    if self.checks.safety {
+                        self.check_safety(rep, kind);
+                    }
                 }
             }
             HOp::Amend { stage_all } => {
